@@ -213,6 +213,7 @@ func (c *E2ECase) clone() *E2ECase {
 // implementation's observable (results of the callers, final index).
 func xLine(c *E2ECase, res *E2EResult, s int) (string, string, bool) {
 	local := map[int]int{}
+	notEntered := map[int]bool{}
 	var specs, rs []string
 	for _, ops := range c.Rounds {
 		for _, o := range ops {
@@ -233,6 +234,14 @@ func xLine(c *E2ECase, res *E2EResult, s int) (string, string, bool) {
 					if e.Op == o.ID && e.Class == "man-del" {
 						hidden = true
 					}
+				}
+			}
+			// an operation whose own manifest exchange failed (e.g. Delete of a manifest that a
+			// concurrent Delete has just removed: 404 on the fetch) never reaches the index update
+			for _, e := range res.Events {
+				if e.Op == o.ID && (e.Class == "man-get" || e.Class == "man-put") && e.Status >= 400 {
+					hidden = true
+					notEntered[o.ID] = true
 				}
 			}
 			if hidden {
@@ -271,6 +280,12 @@ func xLine(c *E2ECase, res *E2EResult, s int) (string, string, bool) {
 	for _, e := range res.Events {
 		t, ok := local[e.Op]
 		if !ok {
+			// an exchange of another subject's operation that took this subject's tag away
+			for _, d := range e.Dropped {
+				if d == s {
+					evs = append(evs, "E")
+				}
+			}
 			continue
 		}
 		if e.Class == "idx-put" {
@@ -286,7 +301,9 @@ func xLine(c *E2ECase, res *E2EResult, s int) (string, string, bool) {
 		}
 		switch e.Class {
 		case "man-put", "man-get":
-			evs = append(evs, fmt.Sprintf("G%d", t))
+			if !notEntered[e.Op] {
+				evs = append(evs, fmt.Sprintf("G%d", t))
+			}
 		case "idx-get":
 			evs = append(evs, fmt.Sprintf("P%d:%d", t, f))
 		case "idx-put":
